@@ -10,7 +10,10 @@ join / is_alive / terminate calls:
   late         join(timeout) returns by timeout, the worker finishes before is_alive() is evaluated
   alive-lost   the worker is still alive at is_alive(); terminate() kills it before it wrote anything
   alive-wrote  the worker is still alive at is_alive(); it writes its result just before terminate() takes effect
+
+and, when two or more workers are 'done', in which ORDER they completed (the order of their writes into the shared dict).
 """
+import itertools
 import os
 import pickle
 
@@ -145,10 +148,9 @@ class _Proc:
                 self.state = "finished"
                 return
             self.owner.join_timeouts.append(timeout)
-            self.mode = CHOICES[self.owner.chooser.choose(("worker", self.idx), len(CHOICES))]
+            self.owner.decide()
             if self.mode == "done":
-                self._deliver()
-                self.state = "finished"
+                self.state = "finished"      # its writes were delivered when it completed (see SchedMP.decide)
             else:
                 self.state = "joined-by-timeout"
         elif self.state == "terminated":
@@ -191,9 +193,28 @@ class SchedMP:
         self.dicts = []
         self.crashes = []
         self.join_timeouts = []
+        self.decided = False
 
     def Manager(self):
+        self.decided = False        # every multi_inference call opens its own manager: a new round of workers
         return _Mgr(self)
+
+    def decide(self):
+        """At the parent's first join(timeout): fix, for every started worker, how it relates to the parent's
+        join/is_alive/terminate (4 modes), and - when several workers complete before the parent looks at them - the ORDER in
+        which they completed, i.e. the order in which their writes reached the shared dict."""
+        if self.decided:
+            return
+        self.decided = True
+        started = [p for p in self.procs if p.state == "running"]
+        for p in started:
+            p.mode = CHOICES[self.chooser.choose(("worker", p.idx), len(CHOICES))]
+        done = [p for p in started if p.mode == "done"]
+        if len(done) >= 2:
+            perms = list(itertools.permutations(done))
+            done = perms[self.chooser.choose(("completion-order",), len(perms))]
+        for p in done:
+            p._deliver()
 
     def Process(self, target=None, args=(), kwargs=None, **kw):
         return _Proc(self, target, tuple(args))
